@@ -890,6 +890,11 @@ func checkCookie(c *mc.Ctx, st *stats, cc *CookieCase) {
 		want.Path = "/" // the path setter resolves dot segments (C07); these two climb to the root
 	}
 	ck := buildCookie(cc, false)
+	if strings.Contains(string(cc.Path), "%") {
+		// the path setter decodes and resolves (C07); what matters here is that the attribute the object reports
+		// is the attribute a recipient reads back
+		want.Path = string(ck.Path())
+	}
 	s := append([]byte(nil), ck.Cookie()...)
 	defer func() {
 		// the application recycles the object it built: parse something short into it, then look at process-wide state
@@ -1329,10 +1334,10 @@ func enumCookies(c *mc.Ctx) {
 
 	// D3: every attribute combination
 	type kvp struct{ k, v string }
-	kvs := []kvp{{"k", "v"}, {"K.1", "a=b c,d"}, {"", "v"}, {"k", ""}}
+	kvs := []kvp{{"k", "v"}, {"K.1", "a=b c,d"}, {"", "v"}, {"k", ""}, {"k", " v"}, {"k", "v "}, {"k", " "}}
 	maxAges := []int{0, 1, 86400, 2147483647}
 	domains := []string{"", "example.com", ".Sub.Example.COM"}
-	paths := []string{"", "/", "/a/B c", "/..", "/a/../.."}
+	paths := []string{"", "/", "/a/B c", "/..", "/a/../..", "/a%3Bb", "/x%20", "/p%3B%20Domain=evil.example"}
 	var combos []CookieCase
 	for _, ma := range maxAges {
 		for e := -1; e < len(instants); e++ {
